@@ -39,9 +39,9 @@ prop('C02', level='proof', technique=_T_V + '; ' + _T_K,
 prop('C03', level='proof', technique=_T_V + '; ' + _T_K,
      level_text='Each slicing decoder (Ethernet II, VLAN, MACsec, Linux SLL, ARP, IPv4, IPv6 + extension chain, AH, UDP, TCP, ICMPv4/6, and the SlicedPacket cursor from_ip) has a Verus postcondition taken from the wire format: accept set, header length, payload range and every accessor as a function of the input bytes; the IPv6 extension walk is proved equal to an RFC 8200 spec function with a loop invariant. The Ethernet/SLL/ether-type doors of the cursor have partial contracts and are cross-checked by bounded Kani harnesses.',
      level_note=_NOTE_V + '; numeric offsets obtained from pointer differences are not decided by Verus (bounded Kani harnesses c07_offsets_*)')
-prop('C04', level='model_checking', technique=_T_K + '; ' + _T_V,
-     level_text='Struct decoding vs slicing: the transport step shared by all PacketHeaders entry points (read_transport), UdpHeader/TcpHeader::from_slice and IpHeaders::from_ipv4_slice are under Verus contract (for all inputs); the whole-packet comparison PacketHeaders vs SlicedPacket is decided by bounded Kani harnesses (IPv4, inputs <= 32..40 B, thorough tier). The IPv6 struct walk (Ipv6Extensions::from_slice, IpHeaders::from_ipv6_slice, IpHeaders::from_slice) is not under contract yet: bounded model checking is the honest label.',
-     level_note=_NOTE_K + '; ' + _NOTE_V)
+prop('C04', level='proof', technique=_T_V + '; ' + _T_K,
+     level_text='Struct decoding vs slicing at the IP door: PacketHeaders::from_ip_slice is proved (Verus, all inputs) to have the verdict of SlicedPacket::from_ip (same IPv4 boundary spec w4_strict, same transport rule tr_accepts), the same remaining payload range per transport kind and the same IP faults; underneath, IpHeaders::from_slice[_lax], from_ipv4_slice[_lax], from_ipv6_slice[_lax], Ipv4Header/Ipv6Header/UdpHeader::from_slice and read_transport are proved against the spec functions the slice decoders are proved against. For IPv6 the struct side is specified by the struct walk swalk (one header per kind: the documented difference). Assumed and only bounded-checked: Ipv6Extensions::from_slice[_lax] (p_ext_struct_walk*), TcpHeader::from_slice field copy. NOT under contract: PacketHeaders::from_ethernet_slice / from_ether_type and all of LaxPacketHeaders - for these only the bounded slim Kani comparisons from the IP door exist (c04_slim_*, c04_lax_*); the link-level doors of the struct family are not decided.',
+     level_note=_NOTE_V + '; ' + _NOTE_K)
 prop('C05', level='proof', technique=_T_V + '; ' + _T_K,
      level_text='The lax decoders (LaxIpv4Slice, LaxIpv6Slice, LaxIpSlice, Ipv6ExtensionsSlice::from_slice_lax, LaxMacsecSlice, UdpSlice::from_slice_lax) are proved by Verus against the same wire-format spec functions as the strict ones: where the strict spec succeeds the lax result is the same boundary with no stop error, otherwise the prefix in front of the fault and the fault as stop error; incomplete <=> the length field promised more than the slice holds, with the slice as length source. LaxSlicedPacket / LaxPacketHeaders vs their strict counterparts are decided on bounded inputs by Kani.',
      level_note=_NOTE_V + '; ' + _NOTE_K)
